@@ -45,6 +45,11 @@ def main():
     if rca != 0:
         res["apply_repo"] = oa[-500:]
     else:
+        keep = {}
+        for p in props:
+            ev = os.path.join(VERIF, "evidence", "%s.json" % p)
+            if os.path.exists(ev):
+                keep[ev] = open(ev).read()
         try:
             for p in props:
                 t0 = time.time()
@@ -60,6 +65,10 @@ def main():
                         break
         finally:
             sh("git -C /repo reset -q && git -C /repo checkout -- .")
+            # the evidence files describe the unchanged tree: put back what the run on the changed tree overwrote
+            for ev, body in keep.items():
+                open(ev, "w").write(body)
+            sh("python3 tools/pyk2coq.py", cwd=VERIF)
     json.dump(res, open(os.path.join(d, "result.json"), "w"), indent=1)
     print(json.dumps(res, indent=1))
 
